@@ -58,16 +58,24 @@ def r10_1_assignment(ctx):
         "no requested, 4 automatic in two routines": ([], 2, 2),
         "requested 0 in subroutine + automatic in both": ([0], 3, 3),
         "requested 2,3,4,5 + 250 automatic (254 total)": ([2, 3, 4, 5], 250, 0),
+        "two automatic variables carrying the same id (the id counter was rewound after a probe)": ([7], 4, 0, "dup"),
+        "automatic variables of two routines carrying the same id": ([], 3, 3, "dup-across"),
     }
     if ctx.tier == "thorough":
         for k in range(1, 6):
             for combo in itertools.combinations(range(0, 8), k):
                 scenarios[f"requested {combo} + 9 automatic"] = (list(combo), 9, 0)
-    for name, (req, n_auto_main, n_auto_sub) in scenarios.items():
+    for name, sc in scenarios.items():
+        req, n_auto_main, n_auto_sub = sc[:3]
+        dup = sc[3] if len(sc) > 3 else None
         B = Blocks()
         # ids of automatic slots are >= 256 and deliberately not in creation order of use
         main_slots = [_slot(f"r{r}", r, True) for r in req] + [_slot(f"a{i}", 1000 - i, False) for i in range(n_auto_main)]
         sub_slots = [_slot(f"s{i}", 300 + i, False) for i in range(n_auto_sub)]
+        if dup == "dup":
+            main_slots.append(_slot("a-same-id", main_slots[-1].attrs["id"], False))
+        elif dup == "dup-across":
+            sub_slots[0].attrs["id"] = main_slots[0].attrs["id"]
         routines = {None: main_slots}
         if sub_slots:
             routines[sub] = sub_slots
@@ -226,12 +234,42 @@ def r10_6_counter_rewind(ctx):
     ctx.require_min("R10.6", 3)
 
 
+def r10_7_ops_carry_slots(ctx):
+    from sa.lowerworld import World
+
+    ctx.rule("R10.7", "every construct that refers to a variable's slot hands the slot object itself to its op - for automatic and for requested ids alike - so that the allocator sees every reference (a literal number in its place is invisible to it: the index can be given to another variable, duplicate requests go unnoticed)")
+    cases = [("ScratchIndex", {}, "int"), ("ScratchLoad", {"type": None, "index_expression": None}, "load"), ("ScratchStore", {"value": "child", "index_expression": None}, "store"), ("ScratchStackStore", {}, "store")]
+    for cname, extra_attrs, want_op in cases:
+        c = ctx.model.find_class(cname, "pyteal.ast.scratch")
+        ctx.analysed(c.fq + ".__teal__")
+        for reserved in (False, True):
+            W = World(ctx.model)
+            sl = Sym(f"slot:{'requested 7' if reserved else 'automatic'}", attrs={"id": 7 if reserved else 300, "isReservedSlot": reserved, "$isa": {"ScratchSlot"}})
+            attrs = {"slot": sl}
+            for k, v in extra_attrs.items():
+                attrs[k] = W.child("V", "uint64") if v == "child" else (W.TT.attrs["anytype"] if k == "type" else v)
+            construct = f"{cname}.__teal__[{'requested' if reserved else 'automatic'} slot]"
+            try:
+                val, me, f = W.run_teal(cname, attrs, W.options(8), module="pyteal.ast.scratch")
+                ops = W.chain(val[0], val[1])
+            except Raised as r:
+                ctx.bad("R10.7", construct, f"raises {r.exc_text[:60]}", c.where)
+                continue
+            mine = [o for o in ops if not o.op.startswith("$")]
+            ok = len(mine) == 1 and mine[0].op == want_op and any(a is sl for a in mine[0].args)
+            ctx.check(ok, "R10.7", construct, f"emits {[repr(o) for o in mine]}; the `{want_op}` op must carry the slot object", c.where, fact={"ops": [repr(o) for o in mine]})
+    ctx.require_min("R10.7", 8)
+
+
 def run(ctx):
     r10_1_assignment(ctx)
     r10_2_identity(ctx)
     r10_5_frame_locals(ctx)
     r10_6_counter_rewind(ctx)
-    from rules import c04 as _c04, c03 as _c03
+    r10_7_ops_carry_slots(ctx)
+    from rules import c04 as _c04, c03 as _c03, c02 as _c02
+
+    _c02.r02_1_call_site(ctx)  # a by-reference argument hands over the index of the caller's variable, whatever kind of variable it is (shared with C02)
 
     _c04.r04_6_placeholders(ctx)  # every placeholder is rewritten / refused (shared with C04)
     _c03.r03_1_skip_set(ctx)  # local/global slot classification; reserved, shared and dynamically indexed slots are never optimised away (shared)
